@@ -32,6 +32,12 @@ POSITIONS = [
 ]
 
 
+import re as _re
+VALUE_CALL = _re.compile(r"^\s*((?:\(\s*)*)value\s*\(", _re.I)
+INTERNAL_WORDS = ["value", "literal", "name", "op", "args", "kwargs", "over", "within", "filter", "missing", "exists", "neg", "add",
+                  "coalesce", "count", "sum", "list", "dict", "call", "tuple", "type", "columns", "query", "range", "min", "max"]
+
+
 def get(tree, path):
     for p in path:
         tree = tree[p]
@@ -114,11 +120,16 @@ def run(ctx, scale=1):
     texts = G.op_text(ctx.gen["ops"])
     glv = c01.gen_level(ctx.gen)
     n = (400 if ctx.quick else 6000) * scale
+    all_texts = []
     for i in range(n):
         g.n = 0
         s = g.random(rng.choice([1, 2, 2, 3]))
         e = G.write(s, rng.choice(["minimal", "redundant"]), rng)
-        text = G.render(e, texts)
+        all_texts.append((G.render(e, texts), e))
+    # user functions whose names are words the library itself uses as keys of its trees / as internal markers
+    for fname in INTERNAL_WORDS:
+        all_texts += [(t, None) for t in ("%s(a1, 0)" % fname, "%s(a1)" % fname, "( %s(a1, 0) )" % fname, "%s(a1) + 1" % fname, "f9(%s(a1), 2)" % fname, "%s()" % fname)]
+    for text, e in all_texts:
         ref = R.parse_raw(POSITIONS[0][1].format(e=text))
         if ref[0] != "ok":
             rep.count("reference", "rejected")
@@ -143,12 +154,34 @@ def run(ctx, scale=1):
                 except Exception:
                     got = "$nopath:" + C.cdump(C.canon(r[1]))[:120]
             if got != ref_tree:
-                ops = sorted(set(G.ops_of(s)))
                 key = "position:%s" % name
+                sub = None
+                mv = VALUE_CALL.match(text)
+                if mv:
+                    # a user function named `value` as the whole select item collides with the library's internal marker
+                    # for window calls (`Call("value", …)`): one rule, sub-cases by the way the item is written
+                    key = "select-item:function-named-value"
+                    sub = ("paren" if mv.group(1) else "bare") + "|" + name
                 rep.count("finding", key)
                 rep.finding(key, "%r: as select item %s, in %s %s" % (text[:120], ref_tree[:160], name, got[:160]),
-                            {"kind": "position", "expr": text, "position": name})
+                            {"kind": "position", "expr": text, "position": name}, sub=sub)
         # ---- parentheses that do not change grouping
+        if e is None:
+            for vt in ("( %s )" % text, "( ( %s ) )" % text):
+                r = R.parse_raw(POSITIONS[0][1].format(e=vt))
+                rep.case("paren|%s" % vt)
+                try:
+                    got = "$err:" + r[1] if r[0] != "ok" else C.cdump(C.canon(get(r[1], POSITIONS[0][2])))
+                except (KeyError, IndexError, TypeError):
+                    got = "$no-such-path:" + C.cdump(C.canon(r[1]))
+                if got != ref_tree:
+                    if VALUE_CALL.match(vt) or VALUE_CALL.match(text):
+                        rep.finding("select-item:function-named-value", "%r -> %s but %r -> %s" % (text[:120], ref_tree[:160], vt[:140], got[:160]),
+                                    {"kind": "parens", "expr": text, "variant": vt}, sub="parens|" + ("paren" if VALUE_CALL.match(text).group(1) else "bare"))
+                    else:
+                        rep.finding("parens-change-tree", "%r -> %s but %r -> %s" % (text[:120], ref_tree[:160], vt[:140], got[:160]),
+                                    {"kind": "parens", "expr": text, "variant": vt})
+            continue
         if has_fold(e):
             rep.count("parens", "skipped-fold-sensitive")
             continue
